@@ -49,6 +49,10 @@ def make_cases(run):
     cases = corpus_cases()
     for name, cfg, hist in G.boundary_cases():
         cases.append((name + ":" + hist[-2][-1], cfg, hist, "boundary"))
+    # XML carrying a <support> element for every support field, loaded with IMPORT_SUPPORT (not this system)
+    for desc in ("pack:2 [numa(memory=1024)] core:2 pu:2", "pu:4"):
+        for order in ("AB", "BA"):
+            cases.append(("b:imported-support:%s:%s" % (desc, order), ["flags 8", "src synthsupport " + desc], ["pre info 0 0 a b", "dup", "mut B info 0 0 c d", "destroy " + order[0], "destroy " + order[1]], "boundary"))
     for name, cfg, hist in G.empty_boundary_cases():
         cases.append((name, cfg, hist, "empty"))
     for i in range(60 if quick else 2500):
@@ -163,7 +167,7 @@ def findings_of(r, meta):
     for l in lines:
         if l.startswith("dup rc=") and "rc=0" not in l:
             out.append(("dup-fails", "hwloc_topology_dup failed on a loaded topology: " + l, False))
-        elif l.startswith("obscmp DIFF") and lines[lines.index(l) - 1].startswith(("uninit", "allocseq", "seq ", "share", "overlap")):
+        elif l.startswith("obscmp DIFF") and lines[lines.index(l) - 1].startswith(("uninit", "allocseq", "seq ", "share", "overlap", "firstq")):
             out.append(("dup-not-equal", "the copy does not report what the original reports: " + l[:400], False))
         elif l.startswith(("opcmp DIFF", "obscmp DIFF")) and twin_ok and lines[lines.index(l) - (1 if l.startswith("opcmp") else 2)].startswith("both "):
             # identical histories on the original and on the copy (no object created since the dup): they must stay identical
@@ -171,6 +175,8 @@ def findings_of(r, meta):
             nboth = sum(1 for x in lines[:lines.index(l)] if x.startswith("both "))
             opname = step[nboth - 1].split(" ")[1] if 0 < nboth <= len(step) else "?"
             out.append(("twin-diverges:" + opname, "the same call on the original and on the copy answers differently / leaves different observations after identical histories (%s): %s" % (step[nboth - 1] if 0 < nboth <= len(step) else "?", l[:500]), False))
+        elif l.startswith("firstq ") and " same" not in l:
+            out.append(("first-query-differs:" + l.split(" ")[1], "an accessor used as the FIRST query on a fresh duplicate answers differently from the original: " + l[:500], False))
         elif l.startswith("nogpcmp DIFF") and not any(h.startswith("mut ") for h in r.get("script", [])):
             step = [h for h in r.get("script", []) if h.startswith("both ")]
             nboth = sum(1 for x in lines[:lines.index(l)] if x.startswith("both "))
@@ -287,7 +293,7 @@ def check(run, replay=None):
                 h2 = shrink(exe, drv, cfg, hist, key, meta)
             run.violation(key, what + "   [case %s]" % name, "\n".join(script_of(cfg, h2)) + "\n--- output\n" + "\n".join(l[:400] for l in r["lines"] if not l.startswith(("share ", "class ", "allowed ")))[:6000],
                           no_input=corr and not spec_broken)
-    for op in ("robj", "misc", "gobj", "distadd", "disthet", "distrm", "distrmdepth", "distfail", "disthandle", "mreg", "mset", "mseto", "kobj", "kinfo", "kinfoclr", "subtype", "info", "infoclr", "tinfo", "tinfoclr", "refresh", "ud", "udclr", "restrict"):
+    for op in ("robj", "misc", "gobj", "distadd", "disthet", "distrm", "distrmdepth", "distfail", "disthandle", "mreg", "mset", "mseto", "mseti", "kobj", "kinfo", "kinfoclr", "subtype", "info", "infoclr", "tinfo", "tinfoclr", "refresh", "ud", "udclr", "restrict"):
         n = sum(1 for (_, _, hist, _) in cases for l in hist if (" " + op + " ") in (" " + l + " "))
         if n:
             run.bump("op:" + op, n)
